@@ -14,9 +14,12 @@ import (
 	"reflect"
 	"regexp"
 	"runtime"
+	"os"
 	"sort"
 	"strconv"
 	"strings"
+	"sync"
+	"sync/atomic"
 
 	"github.com/gregoryv/mq"
 )
@@ -56,6 +59,9 @@ type machine struct {
 	spos    map[int][]byte
 	bufs    map[int][]byte
 	out     *json.Encoder
+	flush   func() error
+	mu      sync.Mutex
+	curOp   atomic.Value // description of the step being executed
 	observe string
 	steps   int64 // hook H2 counter
 }
@@ -145,9 +151,23 @@ func panicSite() string {
 }
 
 func (m *machine) emit(e obj) {
+	m.mu.Lock()
+	defer m.mu.Unlock()
 	if err := m.out.Encode(e); err != nil {
 		fatal("emit: %v", err)
 	}
+}
+
+// abort is called by the watchdog goroutine: it records what the hung step was and ends the process.
+func (m *machine) abort(why string, code int) {
+	m.mu.Lock()
+	cur, _ := m.curOp.Load().(step)
+	m.out.Encode(obj{"ev": "Abort", "why": why, "op": cur.Op, "h": cur.H, "m": cur.M})
+	if m.flush != nil {
+		m.flush()
+	}
+	fmt.Fprintf(os.Stderr, "ABORT %s in %s\n", why, cur.Op)
+	os.Exit(code)
 }
 
 func (m *machine) obsOf(h int) obj {
@@ -338,6 +358,7 @@ func reencode(p any) (b []int, failed bool) {
 
 // runStep executes one step; a panic inside the library is turned into a Panic event.
 func (m *machine) runStep(idx int, s step) (stop bool) {
+	m.curOp.Store(s)
 	defer func() {
 		if r := recover(); r != nil {
 			if ab, ok := r.(budgetAbort); ok {
